@@ -13,6 +13,7 @@ Sub-checks
   roles      sequences of set_auth_roles / get_auth_roles / get_all_auth_roles: what is read back equals the last
              value set (as a set of lower-case letters).
 """
+import asyncio
 import itertools
 import json
 
@@ -198,8 +199,16 @@ def st_output_case(draw):
         if k <= 2:
             ops.append(["event", draw(st.integers(0, 2)), draw(st.sampled_from([1, 7])), draw(st.integers(0, 2))])
         else:
-            ops.append(["req", draw(st.integers(0, 2)), draw(st.sampled_from([{"kinds": [1, 7]}, {"authors": [E.PKS[1]]},
-                                                                               {"kinds": [7]}, {"since": 1}]))])
+            flt = st.sampled_from([{"kinds": [1, 7]}, {"authors": [E.PKS[1]]}, {"kinds": [7]}, {"since": 1}, {"kinds": [1]}])
+            # one filter, or a REQ with several filters (several plans / one UNION)
+            f = draw(st.one_of(flt, flt, st.lists(flt, min_size=2, max_size=3)))
+            if k == 5:
+                # the stored query is kept in flight while further events are accepted, then let go
+                ops.append(["held-req", draw(st.integers(0, 2)), f,
+                            draw(st.lists(st.tuples(st.integers(0, 2), st.sampled_from([1, 7]), st.integers(0, 2)).map(list),
+                                          min_size=1, max_size=3))])
+            else:
+                ops.append(["req", draw(st.integers(0, 2)), f])
     return {"backend": draw(st.sampled_from(["kv", "sql"])), "mode": mode, "ops": ops,
             "auth": draw(st.booleans())}
 
@@ -227,7 +236,8 @@ class Output(Sub):
         if case["auth"]:
             cfg["authentication"] = {"enabled": True, "relay_urls": [URL], "actions": {"save": "a", "query": "a"}}
         nt = False
-        async with H.Rig(backend, config=cfg) as rig:
+        held = any(op[0] == "held-req" for op in case["ops"])
+        async with H.Rig(backend, config=cfg, file_db=True if (backend == "sql" and held) else None) as rig:
             conns = []
             for i in range(3):
                 if case["auth"] and i == 0:
@@ -242,8 +252,34 @@ class Output(Sub):
                 if op[0] == "event":
                     n += 1
                     await c.send(["EVENT", E.make(op[3], op[2], E.T0 + n, [], "o%d" % n)])
+                elif op[0] == "held-req":
+                    import time as _t
+
+                    async def turns(k=12):
+                        for _ in range(k):
+                            await asyncio.sleep(0)
+                            if backend == "sql":
+                                _t.sleep(0.0003)
+                    pool = rig.storage.query_pool if backend == "kv" else None
+                    if pool is not None:
+                        pool.park = True
+                    else:
+                        await rig.hold_query_slots()
+                    n += 1
+                    c.feed(["REQ", "h%d" % n] + (op[2] if isinstance(op[2], list) else [op[2]]))
+                    await turns()
+                    for (ci, kind, key) in op[3]:
+                        n += 1
+                        conns[ci].feed(["EVENT", E.make(key, kind, E.T0 + n, [], "o%d" % n)])
+                        await turns()
+                    if pool is not None:
+                        pool.park = False
+                        pool.release_all()
+                    else:
+                        rig.release_query_slots()
+                    await rig.settle()
                 else:
-                    await c.send(["REQ", "s%d" % n, op[2]])
+                    await c.send(["REQ", "s%d" % n] + (op[2] if isinstance(op[2], list) else [op[2]]))
             for i, c in enumerate(conns):
                 for f in c.frames():
                     if f[0] == "EVENT":
